@@ -64,3 +64,185 @@ class EexecStringRoundTrip(Contract):
 
     ensures = [prop("decrypt-of-encrypt-is-identity", lambda a, old, r: And(
         SymBytes.of(r[2]) == SymBytes.of(a.s), eq(r[1], r[3]), len(_items(SymBytes.of(r[0]))) == len(_items(SymBytes.of(a.s)))))]
+
+
+# -- whole strings of ANY length (loops cut by invariant) -------------------------------------------
+# Ghost sequences over the input bytes x[0..n): a key sequence K with K(0) = R and
+# K(j+1) = next_key(cipherbyte(j), K(j)) (Type 1 spec), and the output byte sequence O(j).
+# For encrypt: cipherbyte(j) = O(j) = x[j] xor (K(j) >> 8); for decrypt: cipherbyte(j) = x[j],
+# O(j) = x[j] xor (K(j) >> 8).  The loop invariant says "R == K(i) and the list built so far is
+# O(0..i)"; the defining equations are assumed as instances at the cut index.
+
+import z3 as _z3
+from pyvc import sym as _sym
+from pyvc.blobs import Atom
+from pyvc.loopcut import LoopSpec
+from pyvc.sym import SymNum as _SymNum
+
+
+class _Seq:
+    """ghost state shared by the loop spec, the list model and the postcondition"""
+
+    def __init__(self, atom, R0, decrypting):
+        I = _z3.IntSort()
+        self.atom, self.R0, self.decrypting = atom, R0, decrypting
+        self.K = _z3.Function("K", I, I)
+        self.O = _z3.Function("O", I, I)
+
+    def x(self, j):
+        return _SymNum(_z3.Select(self.atom.arr, _sym._lift(j).t))
+
+    def key(self, j):
+        return _SymNum(self.K(_sym._lift(j).t))
+
+    def out(self, j):
+        return _SymNum(self.O(_sym._lift(j).t))
+
+    def assume_defs_at(self, i):
+        """K(i) is a 16-bit key, x[i] a byte, O(i) = x[i] xor (K(i)>>8) (via the engine's own xor
+        on proxies), K(i+1) = next_key(cipher byte, K(i))"""
+        cx = _sym.ctx()
+        k, xi = self.key(i), self.x(i)
+        cx.assume_term(_z3.And(k.t >= 0, k.t < 65536, xi.t >= 0, xi.t <= 255))
+        o = (xi ^ (k >> 8)) & 0xFF
+        cx.assume_term(self.O(_sym._lift(i).t) == o.t)
+        cbyte = xi if self.decrypting else o
+        cx.assume_term(self.K(_sym._lift(i + 1).t) == next_key(cbyte, k).t)
+
+
+class _GhostList:
+    """the list `plainList` / `cipherList` inside the cut loop: O(0..length) plus at most one
+    appended element"""
+
+    def __init__(self, seq, length):
+        self.seq, self.length, self.pending = seq, length, None
+
+    def append(self, b):
+        self.pending = b
+
+
+class _GhostBytes:
+    def __init__(self, seq, n):
+        self.seq, self.n = seq, n
+
+
+def _bytesjoin_model(lst, joiner=b""):
+    if isinstance(lst, _GhostList):
+        return _GhostBytes(lst.seq, lst.length)
+    from pyvc.models import bytesjoin_
+    return bytesjoin_(lst, joiner)
+
+
+class _SymInput:
+    """the input byte string as an iterable of symbolic length (for the cut `for` loop)"""
+
+    def __init__(self, seq):
+        self.seq = seq
+
+    def __symlen__(self):
+        return self.seq.atom.n
+
+    def at(self, i):
+        return self.seq.x(i)
+
+
+def _string_loop(listname):
+    def inv(env, i, n):
+        lst = getattr(env, listname)
+        seq = env.g
+        if not isinstance(lst, _GhostList):
+            return len(lst) == 0 and (i == 0 if isinstance(i, int) else eq(i, 0)) and eq(env.R, seq.key(0))
+        ok = eq(env.R, seq.key(i))
+        if lst.pending is not None:
+            from pyvc.models import SymBytes
+            pend = lst.pending
+            pend = pend.items[0] if isinstance(pend, SymBytes) else pend[0]
+            return And(ok, eq(lst.length + 1, i), eq(pend, seq.out(lst.length)))
+        return And(ok, eq(lst.length, i))
+
+    def ghost(env):
+        it = env.cipherstring if "cipherstring" in env.__dict__ else env.plainstring
+        return it.seq
+
+    def havoc(F, env, i, n):
+        seq = env.g
+        seq.assume_defs_at(i)
+        cx = _sym.ctx()
+        cx.assume_term(seq.K(0) == _sym._lift(seq.R0).t)
+        out = {"R": seq.key(i), listname: _GhostList(seq, i)}
+        for extra in ("plain", "cipher"):
+            out[extra] = None
+        return out
+
+    return LoopSpec(modifies=["R", listname, "plain", "cipher"], invariant=inv, havoc=havoc, ghost=ghost)
+
+
+class _StringAny(Contract):
+    module = "fontTools.misc.eexec"
+    props = ("C15",)
+    decrypting = None
+    listname = None
+
+    def rebind(self):
+        d = dict(REBIND)
+        d["bytesjoin"] = _bytesjoin_model
+        return d
+
+    @property
+    def cuts(self):
+        return {self.qualname: {0: _string_loop(self.listname)}}
+
+    def args(self, S, variant):
+        at = Atom("x")
+        S.ctx.assume_term(at.n.t >= 0)
+        R = S.int("R", 0, 65535)
+        seq = _Seq(at, R, self.decrypting)
+        S.ctx.assume_term(seq.K(0) == R.t)
+        argname = "cipherstring" if self.decrypting else "plainstring"
+        return {argname: _SymInput(seq), "R": R, "_seq": seq}
+
+    def call(self, f, a):
+        return f(a.cipherstring if self.decrypting else a.plainstring, a.R)
+
+    ensures = [prop("output-is-the-spec-sequence-and-final-key", lambda a, old, r: (
+        (isinstance(r[0], _GhostBytes) and r[0].seq is a._seq and And(eq(r[0].n, a._seq.atom.n), eq(r[1], a._seq.key(a._seq.atom.n))))
+        or (isinstance(r[0], bytes) and len(r[0]) == 0 and And(eq(a._seq.atom.n, 0), eq(r[1], a.R)))))]
+
+
+@contract
+class EncryptAnyLength(_StringAny):
+    """encrypt(s, R) for strings of EVERY length: byte j of the result is s[j] xor (K(j) >> 8) and
+    the returned key is K(len(s)), K being the Type 1 key sequence driven by the cipher bytes."""
+    qualname = "encrypt"
+    decrypting = False
+    listname = "cipherList"
+
+
+@contract
+class DecryptAnyLength(_StringAny):
+    qualname = "decrypt"
+    decrypting = True
+    listname = "plainList"
+
+
+@contract
+class EexecLockstepLemma(Contract):
+    """Lemma (induction step, no code): if decrypt's key equals encrypt's key before byte j and
+    the cipher byte is c = p xor (k >> 8), then decrypt recovers p and both keys are equal
+    after byte j.  With EncryptAnyLength / DecryptAnyLength (same initial key) this gives
+    decrypt(encrypt(s, R)[0], R) == (s, key encrypt ended with) for every length."""
+    module = None
+    qualname = None
+    props = ("C15",)
+
+    def args(self, S, variant):
+        return dict(p=S.byte("p"), k=S.int("k", 0, 65535))
+
+    def call(self, f, a):
+        c = (a.p ^ (a.k >> 8)) & 0xFF
+        ke = next_key(c, a.k)           # encrypt: next key from its own output byte
+        back = (c ^ (a.k >> 8)) & 0xFF  # decrypt with the same key
+        kd = next_key(c, a.k)           # decrypt: next key from its input byte
+        return c, ke, back, kd
+
+    ensures = [prop("step", lambda a, old, r: And(eq(r[2], a.p), eq(r[1], r[3]), r[1] >= 0, r[1] < 65536))]
